@@ -185,6 +185,10 @@ fn oracle(case: &Case, obs: &mut Obs) -> Result<(), Fail> {
 				Opened::Reader(r) => {
 					accepted += 1;
 					let at = format!("crash after {k} of {n} writes + {cut} bytes of write {k} ({} at offset {}, {} bytes)", writes.get(k).map(|w| w.what).unwrap_or("-"), writes.get(k).map(|w| w.offset).unwrap_or(0), writes.get(k).map(|w| w.bytes.len()).unwrap_or(0));
+					// the stored bytes are only the tile together with the compression the container
+					// declares for them
+					let declared = Comp::from_vt(r.get_parameters().tile_compression);
+					ensure_prop!(declared == case.spec.comp, "crash:accepted-with-wrong-compression", "{at}: the image opens and declares its tiles as {}, they were written as {}", declared.name(), case.spec.comp.name());
 					for (c, want) in set.nonempty() {
 						match guard(|| vt::model::lookup(r.as_ref(), c)) {
 							Ok(Ok(Some(got))) if &got == want => {}
@@ -359,6 +363,8 @@ fn rewrite_oracle(case: &Case, obs: &mut Obs) -> Result<(), Fail> {
 		match opened {
 			Ok(Ok(r)) => {
 				accepted += 1;
+				let declared = Comp::from_vt(r.get_parameters().tile_compression);
+				ensure_prop!(declared == case.spec.comp, "crash:accepted-with-wrong-compression", "{at}: the file opens and declares its tiles as {}, they were written as {}", declared.name(), case.spec.comp.name());
 				for (c, want) in set.nonempty() {
 					match guard(|| vt::model::lookup(r.as_ref(), c)) {
 						Ok(Ok(Some(got))) if &got == want => {}
@@ -389,7 +395,7 @@ fn main() {
 	let mut check = Check::from_args(
 		"C12",
 		"fault_enumeration",
-		"tile-set specs (1-300 tiles, all shape classes, 3 compressions) x writer in {versatiles, pmtiles} run against a recording DataWriterTrait; enumerated crash images per case: every prefix of the recorded write sequence, every byte cut of every write of <= 256 bytes and of the final header write, first/last/every 64th/4 random cuts of larger writes ('all-byte-cuts' cases: every byte cut of every write); oracle: the reader rejects the image (error; a panic is counted and left to C19) or returns every source tile intact, and the complete image must be accepted; phases rewrite-*: a complete older container (same coordinates, other payloads) lies at the path, the new tile set is written to the same path through DataWriterFile::from_path wrapped in a writer that stops after k medium writes (all k for <= 24 writes, else first/last 4 and 12 sampled; one random cut per write and 13 cuts of the final header), the file is opened by path; evaluations counts tile sets, the counters crash-images / cuts-inside-final-header count images; non-trivial = case with >= 3 writes that includes cuts inside the final header write",
+		"tile-set specs (1-300 tiles, all shape classes, 3 compressions) x writer in {versatiles, pmtiles} run against a recording DataWriterTrait; enumerated crash images per case: every prefix of the recorded write sequence, every byte cut of every write of <= 256 bytes and of the final header write, first/last/every 64th/4 random cuts of larger writes ('all-byte-cuts' cases: every byte cut of every write); oracle: the reader rejects the image (error; a panic is counted and left to C19) or declares the compression the tiles were written with and returns every source tile intact, and the complete image must be accepted; phases rewrite-*: a complete older container (same coordinates, other payloads) lies at the path, the new tile set is written to the same path through DataWriterFile::from_path wrapped in a writer that stops after k medium writes (all k for <= 24 writes, else first/last 4 and 12 sampled; one random cut per write and 13 cuts of the final header), the file is opened by path; evaluations counts tile sets, the counters crash-images / cuts-inside-final-header count images; non-trivial = case with >= 3 writes that includes cuts inside the final header write",
 	);
 	check.assume("writes reach the medium in program order (no reordering by the OS or a buffered writer); a torn write leaves a prefix of the write; unwritten regions read as zero bytes");
 	vt::engine::watchdog(3600);
